@@ -149,13 +149,12 @@ class Engine:
         import shutil
         z3new = shutil.which("z3-new") or "/usr/bin/z3"
         # resource limits (deterministic) decide; the wall-clock limits are only a safety net
-        for name, cmd in (("z3-5.1-cli(one-shot)", [z3new, "rlimit=40000000", "-T:120"]),
-                          ("cvc5-cli", ["/usr/bin/cvc5", "--rlimit=3000000", "--tlimit=120000"])):
+        for name, cmd in (("z3-5.1-cli(one-shot)", [z3new, "rlimit=25000000", "-T:90"]),):
             try:
                 with tempfile.NamedTemporaryFile("w", suffix=".smt2", delete=True) as f:
                     f.write(text)
                     f.flush()
-                    out = subprocess.run(cmd + [f.name], capture_output=True, text=True, timeout=130).stdout.strip().split("\n")[0]
+                    out = subprocess.run(cmd + [f.name], capture_output=True, text=True, timeout=100).stdout.strip().split("\n")[0]
             except Exception:
                 continue
             if out == "unsat":
